@@ -74,6 +74,8 @@ def build(case, kind):
         y = src.loc[(lab(a) if a is not None else None):(lab(b) if b is not None else None)]
         p = arg.get("p", "all")
         return y if p == "all" else y.partitions[0] if p == "first" else y.partitions[-1] if p == "last" else y.partitions[1:]
+    if fam == "loclist":
+        return src.loc[[lab(r) for r in arg["labels"]]]
     if fam == "partsrep":
         return src.partitions[arg["lo"]:].repartition(npartitions=arg["n"])
     if fam == "filter":
@@ -92,7 +94,7 @@ def build(case, kind):
 def known_ranks(case):
     ks = set(case["idx"]) | set(case.get("sdivs", [])) | set(case.get("idx2", [])) | set(case.get("sdivs2", []))
     arg = case["arg"]
-    ks |= set(arg.get("d", []))
+    ks |= set(arg.get("d", [])) | set(arg.get("labels", []))
     for f in ("a", "b"):
         if f in arg and arg[f] != NA:
             ks.add(arg[f])
@@ -101,11 +103,12 @@ def known_ranks(case):
 
 def apply_case(case, kind):
     """-> record {op: truth, obs, case, kind} or {"skip": ..}."""
-    if case["fam"] in ("n", "d", "fp", "size"):
+    if case["fam"] in ("n", "nd", "d", "fp", "size"):
         rec = C44.apply_case(case, kind)
         if "skip" in rec:
             return rec
-        return {"op": "truth", "obs": rec["obs"], "case": case, "kind": kind, "fam": case["fam"]}
+        return {"op": "truth", "obs": rec["obs"], "case": case, "kind": rec["kind"], "fam": case["fam"],
+                "srclayout": rec.get("layout"), "srcdivs": rec.get("sdivs")}
     res = guarded(lambda: observe_as_ranks(build(case, kind), kind, known_ranks(case), whole_too=False))
     if isinstance(res, dict):
         if "skip" in res:
@@ -171,8 +174,10 @@ def classify(rec, clauses):
     case = rec["case"]
     fam = case["fam"]
     group = "count" if clauses == ["NPartitions"] else "placement"
-    if fam in ("n", "d", "fp", "size"):
+    if fam in ("n", "nd", "d", "fp", "size"):
         fake = {"case": case, "arg": case["arg"], "op": "from_pandas" if fam == "fp" else "repart", "kind": rec["kind"]}
+        if fam == "nd" and rec.get("srclayout") is not None:
+            fake.update(layout=rec["srclayout"], sdivs=rec["srcdivs"])
         base = C44.classify(fake, ["Meta"] if group == "count" else ["Truthful"])
         return base.rsplit(":", 1)[0] + ":" + group
     arg = case.get("arg", {})
@@ -183,6 +188,9 @@ def classify(rec, clauses):
         if arg.get("p", "all") != "all":
             return "loc:%s:then-partitions" % rel          # Partitions applied to a loc slice (one code path, one signature)
         return "loc:%s:%s" % (rel, group)
+    if fam == "loclist":
+        ls = list(arg["labels"])
+        return "loclist:%s:%s" % ("ascending" if ls == sorted(ls) else "unordered", group)
     if fam == "partsrep":                 # the same program shape as the two-step pipeline
         return "pipeline:partitions->repart_n:%s" % group
     if fam in ("filter", "binop", "concat"):
@@ -200,20 +208,20 @@ def B(rows, labels, parts, maxn, maxd, urows):
 
 def bounds(ctx):
     if ctx.quick:
-        truth = {"loc": B(2, 3, 2, 0, 0, 0), "locparts": B(2, 2, 3, 0, 0, 0), "partsrep": B(3, 3, 3, 0, 0, 0), "filter": B(3, 3, 2, 0, 0, 0),
+        truth = {"loc": B(2, 3, 2, 0, 0, 0), "loclist": B(3, 3, 2, 3, 0, 0), "locparts": B(2, 2, 3, 0, 0, 0), "partsrep": B(3, 3, 3, 0, 0, 0), "filter": B(3, 3, 2, 0, 0, 0),
                  "setidx": B(3, 3, 2, 3, 2, 3), "binop": B(2, 2, 2, 0, 1, 2), "concat": B(2, 2, 2, 0, 1, 2)}
-        div = {"n": B(3, 3, 3, 5, 2, 0), "d": B(2, 2, 2, 3, 2, 0), "fp": B(7, 4, 1, 3, 2, 3)}
+        div = {"n": B(3, 3, 3, 5, 2, 0), "nd": B(2, 2, 2, 3, 2, 0), "d": B(2, 2, 2, 3, 2, 0), "fp": B(7, 4, 1, 3, 2, 3)}
     else:
-        truth = {"loc": B(4, 3, 3, 0, 0, 0), "locparts": B(3, 3, 3, 0, 0, 0), "partsrep": B(4, 3, 3, 0, 0, 0), "filter": B(4, 3, 3, 0, 0, 0), "setidx": B(4, 3, 3, 4, 2, 4),
+        truth = {"loc": B(4, 3, 3, 0, 0, 0), "loclist": B(4, 4, 3, 4, 0, 0), "locparts": B(3, 3, 3, 0, 0, 0), "partsrep": B(4, 3, 3, 0, 0, 0), "filter": B(4, 3, 3, 0, 0, 0), "setidx": B(4, 3, 3, 4, 2, 4),
                  "binop": B(3, 2, 2, 0, 2, 2), "concat": B(3, 2, 2, 0, 2, 2)}
-        div = {"n": B(5, 3, 3, 6, 2, 0), "d": B(3, 3, 2, 3, 2, 0), "fp": B(7, 4, 1, 8, 2, 5)}
+        div = {"n": B(5, 3, 3, 6, 2, 0), "nd": B(3, 3, 2, 4, 2, 0), "d": B(3, 3, 2, 3, 2, 0), "fp": B(7, 4, 1, 8, 2, 5)}
     return truth, div
 
 
 def enumerate_cases(ctx, truth, div, label="design+cases"):
     """Four TLC runs side by side (TLC generates initial states on one thread): the program families of TruthMC in
     three balanced groups, the repartition / from_pandas families of DivisionsMC in one."""
-    groups = [[f for f in ("loc", "filter") if f in truth], [f for f in ("locparts", "partsrep") if f in truth],
+    groups = [[f for f in ("loc", "loclist", "filter") if f in truth], [f for f in ("locparts", "partsrep") if f in truth],
               [f for f in ("setidx", "binop", "concat") if f in truth]]
     jobs = []
     for g in groups:
@@ -237,10 +245,10 @@ def random_cases(rng, n):
         idx = sorted(rng.randrange(nl) for _ in range(rows))
         layout = C44.weak_comp(rng, rows, rng.randint(1, 5))
         sdivs = C44.truthful_divs(rng, idx, layout)
-        fam = rng.choice(["loc", "filter", "setidx", "binop", "concat", "pipeline", "pipeline", "n", "d", "fp"])
+        fam = rng.choice(["loc", "loclist", "loclist", "filter", "setidx", "binop", "concat", "pipeline", "pipeline", "n", "d", "fp"])
         if fam in ("n", "d", "fp"):
             c = C44.random_cases(rng, 1)[0]
-            if c["fam"] in ("n", "d", "fp"):
+            if c["fam"] in ("n", "nd", "d", "fp"):
                 out.append(c)
             continue
         if fam == "setidx":
@@ -264,6 +272,8 @@ def random_cases(rng, n):
         pick = lambda: rng.choice([NA] + list(range(sdivs[0] - 1, sdivs[-1] + 2)))      # noqa: E731
         if fam == "loc":
             out.append(dict(base, fam="loc", arg={"a": pick(), "b": pick()}))
+        elif fam == "loclist":
+            out.append(dict(base, fam="loclist", arg={"labels": [rng.choice(idx) for _ in range(rng.randint(1, 6))]}))
         elif fam == "filter":
             out.append(dict(base, fam="filter", arg={"k": rng.choice(["even", "odd", "none", "all"])}))
         elif fam in ("binop", "concat"):
@@ -326,8 +336,8 @@ def run(ctx):
     byfam = {}
     for c in cases:
         byfam.setdefault(c["fam"], []).append(c)
-    quota = ctx.pick({"fp": 700, "setidx": 500, "loc": 500, "locparts": 350, "partsrep": 220, "filter": 180, "binop": 260, "concat": 260, "n": 400, "d": 180},
-                     {"fp": 9000, "setidx": 6000, "loc": 6000, "locparts": 4000, "partsrep": 2500, "filter": 2500, "binop": 3500, "concat": 3500, "n": 5000, "d": 2500})
+    quota = ctx.pick({"fp": 600, "setidx": 450, "loc": 400, "loclist": 500, "nd": 300, "locparts": 350, "partsrep": 220, "filter": 180, "binop": 260, "concat": 260, "n": 400, "d": 180},
+                     {"fp": 9000, "setidx": 6000, "loc": 6000, "loclist": 5000, "nd": 3000, "locparts": 4000, "partsrep": 2500, "filter": 2500, "binop": 3500, "concat": 3500, "n": 5000, "d": 2500})
     items = []
     for fam in sorted(byfam):
         pool = byfam[fam]
